@@ -219,10 +219,18 @@ def one_scenario(args):
         dirs = [d for d in L.dirs if os.path.isdir(os.path.join(root, d))
                 and not any(c.startswith('.') for c in d.split('/'))]
         subs = [''] if rng.random() < 0.6 or len(dirs) < 2 else ['', rng.choice(dirs[1:])]
+        # a sub-path that is itself listed as a file but now is a directory (or the reverse)
+        odd_subs = [m['p'] for m in muts if m.get('m') in ('retype_dir', 'retype_file') and m.get('p')]
+        if odd_subs and rng.random() < 0.8:
+            subs = subs + [rng.choice(odd_subs)]
         lasts = [None] if rng.random() < 0.6 else [None, rng.choice([5, 50, 100, 119, 120, 600])]
         meta = {'seed': seed, 'idx': idx, 'muts': muts}
-        recs = verify_steps(root, s, namer, rng, subs, want=opts.get('want', ('lib', 'keep', 'cli', 'clik')),
-                            lasts=lasts, meta=meta)
+        want = opts.get('want', ('lib', 'keep', 'cli', 'clik'))
+        if any(os.path.basename(m.get('p', '')).startswith('Manifest') for m in muts if m.get('m') == 'stray'):
+            # an unlisted file with a Manifest name is a candidate for the CLI's top-level discovery
+            # (C15's business): drive the library only, whose top-level Manifest is given
+            want = tuple(w for w in want if w in ('lib', 'keep'))
+        recs = verify_steps(root, s, namer, rng, subs, want=want, lasts=lasts, meta=meta)
         if opts.get('lookups'):
             cands = sorted(L.files) + [m['p'] for m in muts if m.get('p')] + sorted(L.mf)
             paths = rng.sample(cands, min(len(cands), 3)) if cands else []
@@ -316,6 +324,29 @@ def dist_step(root, s, namer, relpath, name, meta=None):
           'last': -1, 'keep': False, 'end': obs['end'], 'exc': obs['exc'], 'ret': True,
           'reported': [], 'res': res}
     return {'s': s, 'ev': ev, 'meta': meta}
+
+
+def same_loader_steps(root, s, namer, paths, meta=None):
+    from . import gem
+    recs = []
+    top = os.path.join(root, 'Manifest')
+    obs, ld = gem.call(gem.loader, top)
+    if obs['end'] != 'ok':
+        return recs
+    gem.call(ld.assert_directory_verifies, '')          # outcome judged elsewhere; may raise
+    for path in paths:
+        for api in ('find_path_entry', 'verify_path', 'assert_path_verifies'):
+            obs, r = gem.call(getattr(ld, api), path)
+            ret, res = True, []
+            if obs['end'] == 'ok':
+                if api == 'find_path_entry':
+                    res = lookup_entry(ld, r, path, namer, s, root)
+                elif api == 'verify_path':
+                    ret = bool(r[0])
+            ev = {'a': 'lookup', 'api': api, 'sub': namer.path(path), 'name': '', 'last': -1, 'keep': False,
+                  'end': obs['end'], 'exc': obs['exc'], 'ret': ret, 'reported': [], 'res': res}
+            recs.append({'s': s, 'ev': ev, 'meta': dict(meta or {}, same_loader=True)})
+    return recs
 
 
 def one_tamper(args):
@@ -414,6 +445,8 @@ def one_tamper(args):
         paths = [p for p in [target, rng.choice(sorted(L.files)) if L.files else None] if p and p != 'dist']
         paths.append(dirs[j] + '/nonexistent')
         recs += lookup_steps(root, s, namer, rng, paths, meta=meta)
+        # the same questions on ONE loader after a whole-tree verification (which may have failed)
+        recs += same_loader_steps(root, s, namer, paths, meta=meta)
         for lvl in sorted(set([j, rng.randrange(0, depth + 1)])):
             for name in ('dist-%d.tar' % j, 'evil.tar', 'dist-0.tar'):
                 recs.append(dist_step(root, s, namer, dirs[lvl], name, meta=meta))
